@@ -13,12 +13,12 @@ BOUNDS = {"quick": [dict(K=3, obs=1, pre=2, to=1), dict(K=2, obs=2, pre=1, to=1,
                     dict(K=3, obs=1, pre=1, to=1, log=True, printer=True), dict(K=3, obs=1, pre=2, to=1, onstart=True, flags=(True, False)),
                     dict(K=4, obs=1, pre=1, to=1, flags=(False, True)),
                     dict(K=3, obs=1, pre=1, to=1, spw=2), dict(K=3, obs=1, pre=1, to=1, nojoin=True),
-                    dict(K=70, obs=1, pre=0, to=1, loud=True)],
+                    dict(K=70, obs=1, pre=0, to=1, loud=True), dict(K=260, obs=1, pre=0, to=1, loud=True)],
           "thorough": [dict(K=6, obs=1, pre=2, to=2), dict(K=3, obs=2, pre=2, to=1, log=True), dict(K=5, obs=1, pre=3, to=1), dict(K=2, obs=3, pre=1, to=0), dict(K=3, obs=3, pre=0, to=1),
                        dict(K=7, obs=1, pre=1, to=1, log=True), dict(K=3, obs=1, pre=2, to=1, log=True, printer=True),
                        dict(K=4, obs=1, pre=2, to=1, onstart=True, flags=(True, False)), dict(K=5, obs=1, pre=1, to=1, flags=(False, True)),
                        dict(K=4, obs=1, pre=2, to=1, spw=2), dict(K=3, obs=2, pre=1, to=1, spw=2), dict(K=4, obs=1, pre=2, to=1, nojoin=True), dict(K=2, obs=2, pre=1, to=1, nojoin=True),
-                       dict(K=70, obs=2, pre=0, to=1, loud=True), dict(K=100, obs=1, pre=1, to=0, loud=True)]}
+                       dict(K=70, obs=2, pre=0, to=1, loud=True), dict(K=100, obs=1, pre=1, to=0, loud=True), dict(K=600, obs=1, pre=0, to=1, loud=True)]}
 
 
 class RecLogger:
@@ -71,6 +71,7 @@ def harness(L, K, nobs, max_pre, max_to, log=False, printer=False, onstart=False
     def path(e):
         s = S.Sched(e, max_timeouts=max_to, max_preempt=max_pre)
         s.yield_on_start = onstart
+        s.max_steps = max(s.max_steps, 60 * K)
         val = (lambda frame: True) if loud else thr.window_validator(data, spw)
         meta = dict(K=K, obs=nobs, pre=max_pre, to=max_to, log=log, printer=printer, onstart=onstart, flags=list(flags), spw=spw, nojoin=nojoin, loud=loud)
         e.on_budget = lambda m: mk(m, meta, s)
@@ -152,6 +153,7 @@ def replay_fn(c):
     val = (lambda frame: True) if loud else thr.concrete_validator(data, c["valid"], spw)
     s = S.Sched(None, max_timeouts=c["to"] + 50, max_preempt=10 ** 6)
     s.yield_on_start = bool(c.get("onstart"))
+    s.max_steps = max(s.max_steps, 60 * K)
     s.script = [tuple(x) for x in c["schedule"]]
     outcome = None
     try:
